@@ -61,6 +61,7 @@ def initFalseOK : List FieldSpec → List Val → Bool
 
 def notNan : Option NumV → Bool
   | some .nan => false
+  | some .snan => false
   | _ => true
 
 mutual
@@ -72,8 +73,9 @@ def valOK (W : World) : Val → Bool
   | .enum _ m => enumNameOK m
   | .str t r => decodeStrLit r == some t
   | .bytes _ bs r => decodeBytesLit r == some bs
-  | .float n _ => notNan (some n)
+  | .float x r => x != .nan && f64Canonical x && r == x.repr
   | .opaque c callee _ n => notNan n && callee == c.path
+  | .decimal d r => notNan (some (numOfDec d)) && r == decRepr d
   | .set _ xs => hashableL xs && valOKL W xs
   | .tuple xs => valOKL W xs
   | .list xs => valOKL W xs
@@ -90,21 +92,23 @@ end
 
 mutual
 /-- the property's own domain: values for which "equal to the original" can
-hold at all and that a constructor call can produce — the `repr` given for a
+hold at all and that a constructor call can produce — a float is a value of
+the binary64 format and its `repr` is the shortest one (`Xs.Conv.F64.repr`), the `repr` given for a
 `str`/`bytes` denotes it (true of CPython's `repr`: `str_repr_roundtrips`, `bytes_repr_roundtrips`), no NaN, dict keys and
-set elements hashable, `init=False` attributes at their default, opaque values print their
+set elements hashable, opaque values print their
 class by its qualified name -/
 def domOK (W : World) : Val → Bool
   | .enum _ m => enumNameOK m
   | .str t r => decodeStrLit r == some t
   | .bytes _ bs r => decodeBytesLit r == some bs
-  | .float n _ => notNan (some n)
+  | .float x r => x != .nan && f64Canonical x && r == x.repr
   | .opaque c callee _ n => notNan n && callee == c.path
+  | .decimal d r => notNan (some (numOfDec d)) && r == decRepr d
   | .tuple xs => domOKL W xs
   | .set _ xs => hashableL xs && domOKL W xs
   | .list xs => domOKL W xs
   | .dict kvs => domOKKV W kvs
-  | .model c attrs => initFalseOK (W.fieldsOf c) attrs && domOKL W attrs
+  | .model _ attrs => domOKL W attrs
   | _ => true
 def domOKL (W : World) : List Val → Bool
   | [] => true
@@ -112,6 +116,27 @@ def domOKL (W : World) : List Val → Bool
 def domOKKV (W : World) : List (Val × Val) → Bool
   | [] => true
   | (k, v) :: r => hashable k && domOK W k && domOK W v && domOKKV W r
+end
+
+mutual
+/-- every attribute of an `init=False` field still holds the class default
+(compared with `==`, as the serializer's own elision test does).  The renderer
+skips these fields and the constructor call cannot set them, so an instance on
+which such an attribute was changed after construction is *not* restored:
+`Props.C18.init_false_attribute_not_restored`. -/
+def initFalseAtDefault (W : World) : Val → Bool
+  | .model c attrs => initFalseOK (W.fieldsOf c) attrs && initFalseAtDefaultL W attrs
+  | .list xs => initFalseAtDefaultL W xs
+  | .tuple xs => initFalseAtDefaultL W xs
+  | .set _ xs => initFalseAtDefaultL W xs
+  | .dict kvs => initFalseAtDefaultKV W kvs
+  | _ => true
+def initFalseAtDefaultL (W : World) : List Val → Bool
+  | [] => true
+  | x :: xs => initFalseAtDefault W x && initFalseAtDefaultL W xs
+def initFalseAtDefaultKV (W : World) : List (Val × Val) → Bool
+  | [] => true
+  | (k, v) :: r => initFalseAtDefault W k && initFalseAtDefault W v && initFalseAtDefaultKV W r
 end
 
 /-- every import that binds the first name of a reference comes from the
